@@ -42,10 +42,26 @@ class UnitResult:
 
 
 def scan_assumptions(text):
+    """mechanical scan of the generated file for everything that is assumed rather than proved"""
     hits = []
-    for i, line in enumerate(text.split("\n"), 1):
-        if re.search(r"\bassume\s*\(|\badmit\s*\(|external_body|assume_specification|\buninterp\b|#\[verifier::external\]|external_type_specification", line):
-            hits.append("L%d: %s" % (i, line.strip()[:160]))
+    lines = text.split("\n")
+    for i, line in enumerate(lines):
+        if re.search(r"\bassume\s*\(|\badmit\s*\(|assume_specification|external_type_specification", line):
+            hits.append("L%d: %s" % (i + 1, line.strip()[:160]))
+        elif re.search(r"\buninterp\b", line):
+            hits.append("uninterpreted: " + line.strip()[:150])
+        elif "#[verifier::external_body]" in line or "#[verifier::external]" in line:
+            # name the item the attribute applies to
+            item = ""
+            for j in range(i, min(i + 4, len(lines))):
+                m = re.search(r"\b(fn|struct|impl|proof fn)\s+([^({]+)", lines[j])
+                if m:
+                    item = (m.group(1) + " " + m.group(2)).strip()[:110]
+                    break
+            kind = "assumed contract (external_body)" if "external_body" in line else "external (not verified)"
+            hits.append("%s: %s" % (kind, item or lines[min(i + 1, len(lines) - 1)].strip()[:110]))
+        elif re.match(r"\s*global size_of", line):
+            hits.append("machine arithmetic: " + line.strip())
     return hits
 
 
